@@ -42,6 +42,9 @@ pub enum Resolver {
     /// a join future is taken, then the owner is dropped like everybody else's handles: the
     /// future resolves when the actor - nothing keeps it alive - has ended
     JoinKeptOwnerDropped,
+    /// two join futures pending at the same time in two different tasks (the second one is
+    /// handed to a helper client): both resolve once the actor has terminated
+    JoinTwoTasks,
 }
 
 pub struct X {
@@ -209,7 +212,9 @@ pub fn make_case(progs: &[Vec<L>], cause: Cause, resolver: Resolver, mailbox: Ma
         clients.push(ClientSpec { init, ops });
     }
     if cause == Cause::StopClient {
-        clients.push(ClientSpec { init: vec![HInit::Addr], ops: vec![Op::Stop(H::Addr(0))] });
+        // (with two joining tasks the stop comes once both joins are pending)
+        let ops = if resolver == Resolver::JoinTwoTasks { vec![Op::Sleep(3), Op::Stop(H::Addr(0))] } else { vec![Op::Stop(H::Addr(0))] };
+        clients.push(ClientSpec { init: vec![HInit::Addr], ops });
     }
     match resolver {
         Resolver::None => {}
@@ -230,6 +235,10 @@ pub fn make_case(progs: &[Vec<L>], cause: Cause, resolver: Resolver, mailbox: Ma
             ],
         }),
         Resolver::JoinKeptOwnerDropped if own_free => clients.push(ClientSpec { init: vec![HInit::Own], ops: vec![Op::JoinStart(H::Own(0)), Op::Drop(H::Own(0)), Op::JoinAwait(0)] }),
+        Resolver::JoinTwoTasks if own_free => {
+            clients.push(ClientSpec { init: vec![HInit::Own], ops: vec![Op::JoinStart(H::Own(0)), Op::JoinStart(H::Own(0)), Op::JoinGive(1), Op::JoinAwait(0)] });
+            clients.push(ClientSpec { init: vec![], ops: vec![Op::Sleep(1), Op::JoinTake, Op::JoinAwait(0)] });
+        }
         Resolver::Join if own_free => clients.push(ClientSpec { init: vec![HInit::Own], ops: vec![Op::Join(H::Own(0))] }),
         Resolver::JoinTwice if own_free => clients.push(ClientSpec { init: vec![HInit::Own], ops: vec![Op::Join(H::Own(0)), Op::Join(H::Own(0))] }),
         Resolver::JoinInFlight if own_free => {
@@ -282,7 +291,7 @@ fn resolvers_for(cause: Cause) -> Vec<Resolver> {
         Cause::LastDrop => vec![Resolver::None, Resolver::JoinKeptOwnerDropped],
         Cause::StoppedPanic => vec![Resolver::Halt],
         Cause::HandlerPanic(_) | Cause::TimeoutFail(_) | Cause::StartErr | Cause::StartPanic | Cause::StopClient => {
-            vec![Resolver::None, Resolver::Halt, Resolver::Await, Resolver::Join, Resolver::JoinTwice, Resolver::JoinInFlight, Resolver::AwaitThenConvert]
+            vec![Resolver::None, Resolver::Halt, Resolver::Await, Resolver::Join, Resolver::JoinTwice, Resolver::JoinInFlight, Resolver::AwaitThenConvert, Resolver::JoinTwoTasks]
         }
         // a cancellation point that is never reached must not leave the scene hanging: halt
         Cause::Cancel(_) => vec![Resolver::Halt],
@@ -313,7 +322,7 @@ fn plain_cases(tier: Tier) -> Vec<Case> {
         for &cause in &causes {
             for resolver in resolvers_for(cause) {
                 for a in first0 {
-                    if a == L::CallOwn && matches!(resolver, Resolver::Join | Resolver::JoinTwice | Resolver::JoinInFlight | Resolver::JoinKeptOwnerDropped) {
+                    if a == L::CallOwn && matches!(resolver, Resolver::Join | Resolver::JoinTwice | Resolver::JoinInFlight | Resolver::JoinKeptOwnerDropped | Resolver::JoinTwoTasks) {
                         continue;
                     }
                     for s2 in second {
@@ -325,6 +334,9 @@ fn plain_cases(tier: Tier) -> Vec<Case> {
                                 continue;
                             }
                             if tier == Tier::Quick && matches!(s2, Some(L::CallAbandon | L::SendAbandon)) && !(a == L::CallAddr && b == L::CallCal) {
+                                continue;
+                            }
+                            if resolver == Resolver::JoinTwoTasks && !(a == L::CallAddr && s2.is_none() && b == L::CallCal && cause == Cause::StopClient) {
                                 continue;
                             }
                             // (timers multiply the schedules: one program shape is enough for this resolver)
